@@ -160,6 +160,29 @@ def geom_many(rng: random.Random, w: int) -> Dict[str, Any]:
     return {'segments': segs, 'cuts': [5, cursor // 2 + 1]}
 
 
+def geom_many_pages(rng: random.Random, w: int) -> Dict[str, Any]:
+    """tiny segments in MANY distinct 2^14-word pages (low ones, which are page-backed only when the flat window is off or
+    small, and far ones): the engine's page table has to grow (several times) while the image loads, and the run comes back
+    to pages inserted before a growth after they have left the small page cache."""
+    top_page = max_words(w) // PAGE
+    segs = [(0, rng.choice([4, 8, 16]))]
+    pages = set()
+    count = rng.choice([20, 33, 40, 70, 130, 260])
+    far_base = (1 << rng.choice([30, 40, 50])) // PAGE if w == 64 else 0
+    for k in range(count):
+        if far_base and rng.random() < 0.6:
+            p = far_base + rng.choice([k, 16 * k, rng.randrange(1, 1 << 16)])
+        else:
+            p = rng.choice([k + 1, 16 * (k + 1), rng.randrange(1, min(top_page - 1, 1 << 14))])
+        if p in pages or p + 1 >= top_page:
+            continue
+        pages.add(p)
+        off = rng.choice([0, 0, 2, 100, PAGE - 4, PAGE - 2])
+        length = rng.choice([4, 6, 8]) if off < PAGE - 8 else PAGE - off
+        segs.append((p * PAGE + off, length))
+    return {'segments': segs, 'cuts': [5, 1000, 16 * PAGE + 1, PAGE]}
+
+
 def _dedupe(segs: List[Tuple[int, int]]) -> List[Tuple[int, int]]:
     """drop segments overlapping or touching out of range; keep (0, n) first."""
     out: List[Tuple[int, int]] = []
@@ -183,6 +206,7 @@ GEOMETRIES = {
     'top': (geom_top, (8, 16, 32, 64)),
     'magic': (geom_gaps, (64,)),
     'many': (geom_many, (16, 32, 64)),
+    'many-pages': (geom_many_pages, (32, 64)),
 }
 
 
@@ -202,7 +226,7 @@ class Grower:
         self.plan_words: Dict[int, int] = {}
         self.executed: List[int] = []
         self.magic_bias = 0.25 if geom_name == 'magic' else (0.03 if w == 64 else 0.0)
-        self.risk = rng.choice([1.0, 0.3, 0.08])
+        self.risk = rng.choice([1.0, 0.3, 0.08]) if geom_name != 'many-pages' else rng.choice([0.08, 0.02])
         self.machine = RefMachine(w, self.seg, {}, input_bytes, lazy=self._lazy, track=True)
 
     # -------------------------------------------------------- helpers
@@ -458,6 +482,8 @@ def generate_case(rng: random.Random, geom_name: Optional[str] = None, w: Option
             continue
         input_bytes = bytes(rng.getrandbits(8) for _ in range(rng.choice([0, 0, 1, 1, 2, 3, 6])))
         target = rng.choice([1, 3, 8, 8, 20, 20, 50, 120, 400])
+        if name == 'many-pages':
+            target = rng.choice([50, 120, 400, 800])
         grower = Grower(rng, width, name, geom, input_bytes, target)
         case = grower.grow(max_ops)
         if case is None:
@@ -477,6 +503,46 @@ def reference_run(case: Dict[str, Any], ring_len: Optional[int] = None, max_ops:
     if m.cause == CUT:
         raise RuntimeError('reference machine did not terminate on a kept case')
     return m
+
+
+def page_walk_case(rng: random.Random, w: int, n_pages: int, rounds: int) -> Dict[str, Any]:
+    """a deterministic walk over MANY distinct 2^14-word pages, `rounds` times in different orders: every page holds one op
+    per round plus two data words that ops in other pages flip. the engine's page table grows while the image loads, and the
+    walk returns to pages inserted before each growth long after they left the page cache. built directly - the reference
+    machine still supplies the expected outcome."""
+    top_page = max_words(w) // PAGE
+    pages: List[int] = []
+    far_base = (1 << rng.choice([30, 40, 50])) // PAGE if w == 64 else 0
+    while len(pages) < n_pages:
+        if far_base and rng.random() < 0.6:
+            p = far_base + rng.choice([len(pages), 16 * len(pages), rng.randrange(1, 1 << 16)])
+        else:
+            p = rng.choice([len(pages) + 1, 16 * (len(pages) + 1), rng.randrange(1, min(top_page - 1, 1 << 13))])
+        if p not in pages and 0 < p < top_page - 1:
+            pages.append(p)
+    seg_len = 2 * rounds + 2
+    starts = [p * PAGE + rng.choice([0, 0, 2, 100, PAGE - seg_len]) for p in pages]
+    mem: Dict[int, int] = {}
+    order = [(r, k) for r in range(rounds) for k in rng.sample(range(n_pages), n_pages)]
+    mem[0] = (starts[0] + 2 * rounds) * w + 1                      # the first op flips a data bit ...
+    mem[1] = (starts[order[0][1]] + 2 * order[0][0]) * w           # ... and enters the walk
+    for i, (r, k) in enumerate(order):
+        slot = starts[k] + 2 * r
+        if rng.random() < 0.1:
+            flip = 2 * w + rng.randrange(2)                           # an output bit
+        else:
+            flip = (starts[rng.randrange(n_pages)] + 2 * rounds + rng.randrange(2)) * w + rng.randrange(w)
+        nxt = (starts[order[i + 1][1]] + 2 * order[i + 1][0]) * w if i + 1 < len(order) else slot * w
+        mem[slot] = flip
+        mem[slot + 1] = nxt
+    for s in starts:
+        if rng.random() < 0.5:
+            mem[s + 2 * rounds] = rng.getrandbits(w)
+    segments = [[0, 8]] + [[s, seg_len] for s in starts]
+    rng.shuffle(segments)
+    segments.sort(key=lambda seg: seg[0] != 0)   # (0, n) first, the others in load order = random
+    return {'w': w, 'segments': segments, 'mem': sorted([k, v] for k, v in mem.items() if v), 'geom': 'page-walk',
+            'input': '', 'cuts': [5, 1000, PAGE, 16 * PAGE + 1]}
 
 
 def long_chain_case(rng: random.Random, w: int, n_ops: int) -> Dict[str, Any]:
